@@ -26,16 +26,7 @@ PID = "C20"
 TRANSLATORS = ["T-copies"]
 
 # Genuine defects of halmos reproduced by this check on the unchanged tree (reported, not repaired).
-KNOWN = [
-    {
-        "id": "F10-partial-frontier-cache",
-        "property": "C20",
-        "what": "an invariant test whose path loop breaks early (--width reached, or --early-exit after a counterexample) "
-                "leaves a partially computed frontier in ContractContext.frontier_states; a later invariant test of the same "
-                "contract silently explores fewer states than it does alone (PASS instead of FAIL, no warning)",
-        "match": {"defect": "partial-frontier-cache"},
-    },
-]
+KNOWN = common.known_for("C20")  # entries live in /verif/known_findings.json
 
 PARTIAL = ("CPython object aliasing outside the fields the code copies explicitly, the process-global singletons "
            "(BuildOut, DeployAddressMapper, Mapper, Profiler, CoverageReporter, logger_unique), z3's own global state and "
